@@ -498,6 +498,13 @@ def install(reg):
             arrs = [d_(ex, st, x) for x in items]
             if not arrs:
                 raise Raised('ValueError')
+            # python lists of scalars inside the sequence become 1-D arrays
+            for ii, a in enumerate(arrs):
+                if isinstance(a, PyList) and a.items and all(
+                        isinstance(x, (Sym, int, float, bool))
+                        for x in a.items):
+                    arrs[ii] = d_(ex, st, np_array(ex, st, [items[ii]], {},
+                                                   node))
             if all(isinstance(a, Arr) for a in arrs):
                 r = arrs[0]
                 for a in arrs[1:]:
@@ -605,6 +612,12 @@ def install(reg):
                 if hk is not None:
                     return hk(ex, st, v, kw, node, is_max)
                 raise OutsideSubset('argmax axis', node)
+            if isinstance(v, Arr) and v.k in ('int', 'real') and \
+                    concrete_int(v.n) == 2:
+                # two elements: case split (first occurrence wins ties)
+                a0, a1 = v.at(z3.IntVal(0)), v.at(z3.IntVal(1))
+                first = ex.decide(st, (a0 >= a1) if is_max else (a0 <= a1))
+                return 0 if first else 1
             if isinstance(v, Arr) and v.k in ('int', 'real'):
                 ex.need(st)('arg{}_nonempty'.format('max' if is_max else 'min'),
                             v.n >= 1)
@@ -662,8 +675,9 @@ def install(reg):
         st.assume(A.QForAll([i, j], z3.Implies(
             z3.And(i >= 0, i <= j, j < v.n), v.at(p(i)) <= v.at(p(j))),
             patterns=[z3.MultiPattern(p(i), p(j))]))
-        return st.alloc(Arr(v.n, lambda t: p(t), 'int',
-                            tag=('argsort', v)), 'argsort')
+        return st.alloc(Arr(v.n, lambda t: p(t), 'int', tag=('argsort', v),
+                            facts=dict(distinct=True, nonneg=True)),
+                        'argsort')
     L['np.argsort'] = np_argsort
 
     def np_sort(ex, st, args, kw, node):
